@@ -82,7 +82,7 @@ func (w *World) expect(op *Op) expectation {
 			// the request's deadline passed inside a chain store / cache call: the statement names timeouts of
 			// backend calls (504); for the chain store it only follows that the request cannot succeed
 			return non200("chain-store:timeout")
-		case "cache.err":
+		case "cache.err", "store.slow":
 			soft = k // the cache failing is survivable (the store can be asked) or not: both are accepted
 		}
 	}
